@@ -339,14 +339,18 @@ var two256m1 = new(big.Int).Sub(new(big.Int).Lsh(big.NewInt(1), 256), big.NewInt
 var two255 = new(big.Int).Lsh(big.NewInt(1), 255)
 
 type gen struct {
-	w *world
-	r *Rng
+	w     *world
+	r     *Rng
+	happy bool // draw arguments that let the method succeed
 }
 
 func (g *gen) pick(xs ...string) string { return xs[g.r.Intn(len(xs))] }
 
 func (g *gen) denom() string {
 	w := g.w
+	if g.happy {
+		return g.pick("unibi", w.coinDenom, w.ercDenom)
+	}
 	switch g.r.Pick(30, 10, 8, 40) {
 	case 0:
 		return "unibi"
@@ -365,6 +369,9 @@ func (g *gen) addrStr() string {
 	w := g.w
 	hexs := w.other.Hex()
 	b32 := eth.EthAddrToNibiruAddr(w.other).String()
+	if g.happy {
+		return g.pick(hexs, b32, w.deps.Sender.EthAddr.Hex())
+	}
 	switch g.r.Pick(30, 20, 50) {
 	case 0:
 		return hexs
@@ -378,6 +385,9 @@ func (g *gen) addrStr() string {
 }
 
 func (g *gen) amount() *big.Int {
+	if g.happy {
+		return big.NewInt(int64(g.r.Range(1, 5000)))
+	}
 	switch g.r.Pick(10, 15, 20, 10, 10, 12, 12, 6, 5) {
 	case 0:
 		return big.NewInt(0)
@@ -406,6 +416,12 @@ type wasmCoin = struct {
 
 func (g *gen) funds() []wasmCoin {
 	out := []wasmCoin{}
+	if g.happy {
+		if g.r.Chance(1, 3) {
+			out = append(out, wasmCoin{"unibi", big.NewInt(int64(g.r.Range(1, 50)))})
+		}
+		return out
+	}
 	switch g.r.Pick(55, 15, 30) {
 	case 0:
 		return out
@@ -420,13 +436,16 @@ func (g *gen) funds() []wasmCoin {
 }
 
 func (g *gen) wasmContract() string {
-	if g.r.Chance(6, 10) {
+	if g.happy || g.r.Chance(6, 10) {
 		return g.w.wasmAddr.String()
 	}
 	return g.addrStr()
 }
 
 func (g *gen) wasmMsg() []byte {
+	if g.happy {
+		return []byte(g.pick(`{"increment":{}}`, `{"reset":{"count":5}}`))
+	}
 	return []byte(g.pick(`{"increment":{}}`, `{"increment":{}}`, `{"reset":{"count":5}}`, `{}`, `{"bogus":1}`, ``, `not json`, `{"increment":{}}x`, `[]`, `"str"`, `{"increment":`,
 		`{"count":{}}`, "\x00\x01", `{"reset":{"count":"x"}}`))
 }
@@ -441,6 +460,9 @@ type wasmExecMsg = struct {
 func (g *gen) argsFor(pc int, name string) []interface{} {
 	w := g.w
 	erc := func() gethcommon.Address {
+		if g.happy {
+			return []gethcommon.Address{w.coinErc20, w.ercErc20}[g.r.Intn(2)]
+		}
 		switch g.r.Pick(40, 40, 20) {
 		case 0:
 			return w.coinErc20
@@ -465,6 +487,9 @@ func (g *gen) argsFor(pc int, name string) []interface{} {
 	case "whoAmI":
 		return []interface{}{g.addrStr()}
 	case "sendToEvm":
+		if g.happy {
+			return []interface{}{g.pick(w.coinDenom, w.ercDenom), g.amount(), g.addrStr()}
+		}
 		return []interface{}{g.denom(), g.amount(), g.addrStr()}
 	case "bankMsgSend":
 		return []interface{}{g.addrStr(), g.denom(), g.amount()}
@@ -473,10 +498,16 @@ func (g *gen) argsFor(pc int, name string) []interface{} {
 	case "execute":
 		return []interface{}{g.wasmContract(), g.wasmMsg(), g.funds()}
 	case "query":
+		if g.happy {
+			return []interface{}{g.wasmContract(), []byte(`{"count":{}}`)}
+		}
 		return []interface{}{g.wasmContract(), []byte(g.pick(`{"count":{}}`, `{"count":{}}`, `{}`, ``, `nope`, `{"bogus":{}}`))}
 	case "queryRaw":
 		return []interface{}{g.wasmContract(), []byte(g.pick("state", "", "\x00", "count", strings.Repeat("k", 200)))}
 	case "instantiate":
+		if g.happy {
+			return []interface{}{g.pick("", w.deps.Sender.NibiruAddr.String()), w.wasmCodeID, []byte(`{"count": 3}`), "counter", g.funds()}
+		}
 		admin := g.pick("", "", w.deps.Sender.NibiruAddr.String(), "garbage", w.other.Hex())
 		code := []uint64{w.wasmCodeID, w.wasmCodeID, 0, 999, ^uint64(0)}[g.r.Intn(5)]
 		msg := []byte(g.pick(`{"count": 0}`, `{"count": 7}`, `{}`, ``, `bad`))
@@ -490,6 +521,9 @@ func (g *gen) argsFor(pc int, name string) []interface{} {
 		}
 		return []interface{}{ms}
 	case "queryExchangeRate", "chainLinkLatestRoundData":
+		if g.happy {
+			return []interface{}{"unibi:uusd"}
+		}
 		return []interface{}{g.pick("unibi:uusd", "unibi:uusd", "unibi:uusd", "ubtc:uusd", "", "unibi", "a:b", "unibi:uusd:x", ":uusd", "unibi:", "ünibi:uusd",
 			strings.Repeat("p", 300), "unibi:"+strings.Repeat("q", 128), "UNIBI:UUSD", "unibi;uusd", "1ab:uusd")}
 	}
@@ -532,6 +566,7 @@ func (g *gen) calldata(pc int) (data []byte, label string) {
 	names := sortedMethods(abi)
 	name := names[g.r.Intn(len(names))]
 	m := abi.Methods[name]
+	g.happy = g.r.Chance(35, 100)
 	packed, err := abi.Pack(name, g.argsFor(pc, name)...)
 	if err != nil {
 		return m.ID, name + "/bare-selector"
